@@ -142,6 +142,11 @@ func dirname(path string) string {
 }
 
 func realPath(p string) string {
+	// the empty path stands for a name that could not be resolved; EvalSymlinks
+	// would turn it into ".", which the sets match as a child of the root
+	if p == "" {
+		return ""
+	}
 	f, err := filepath.EvalSymlinks(p)
 	if err != nil {
 		return ""
